@@ -1,7 +1,7 @@
 (* Dispatcher: one entry point for every executable model function. *)
 From Coq Require Import List ZArith Arith Bool QArith Qcanon.
 From MsmV Require Import Lib.Result Lib.PyList Lib.Sorting Run.Wire.
-From MsmV Require Import Lib.QMat Model.Labels Model.StateTraj Model.Msm Proofs.MsmFacts Model.Coring Proofs.CoringFacts Proofs.CoringWrap Model.Events Model.Similarity Spec.Wrappers Model.Ergodic.
+From MsmV Require Import Lib.QMat Model.Labels Model.StateTraj Model.Msm Proofs.MsmFacts Model.Coring Proofs.CoringFacts Proofs.CoringWrap Model.Events Model.Similarity Spec.Wrappers Model.Ergodic Model.Peq Model.HS.
 Import ListNotations.
 Local Open Scope Z_scope.
 
@@ -108,6 +108,40 @@ Definition run_ergodic (e : Z) (a : list Z) : option (list Z) :=
     | None => None end
   else None.
 
+Definition run_peq (e : Z) (a : list Z) : option (list Z) :=
+  if e =? 401 then
+    match dpair dQmat dbool a with
+    | Some ((T, allow), _) =>
+        Some (eres (eopt eQs) (peq T allow) ++ ebool (is_ergodic atol8 T) ++ ebool (stochastic T)
+              ++ ebool (threshold_free T) ++ ebool (rows_clear T) ++ eopt ebools (mask_spec (supp T))
+              ++ ebool (all_classes_aperiodic (supp T)) ++ [Z.of_nat (n_closed_classes (supp T))])
+    | None => None end
+  else if e =? 402 then
+    match dpair dQ (dpair dQmat (dlist dQ)) a with
+    | Some ((tol, (T, v)), _) => Some (ebool (peq_ok tol T v))
+    | None => None end
+  else if e =? 301 then
+    match dpair dnested (dpair dnested (dpair dbool dnat)) a with
+    | Some ((macro, (micro, (pos, lag))), _) =>
+        let r := lumped_estimate macro micro pos lag in
+        (* aggregated equilibrium populations, for the stationarity check of the implementation *)
+        let pA := match mk_lumped macro micro pos with
+                  | Ok l => match assign_idx l, stationary (fst (emm (lu_micro l) lag)) with
+                            | Ok aidx, Some pi => Some (vmul pi (aggregation (length (lu_macrostates l)) aidx))
+                            | _, _ => None end
+                  | Err _ => None end in
+        Some (eres (eopt (fun p => eQmat (fst p) ++ eZs (snd p))) r ++ eopt eQs pA
+              ++ eres (fun p => eQmat (fst p) ++ eZs (snd p)) (estimate_markov_model macro lag)
+              ++ eres (fun p => eQmat (fst p) ++ eZs (snd p) ++ ebool (threshold_free (fst p)))
+                      (estimate_markov_model micro lag))
+    | None => None end
+  else if e =? 302 then
+    match dpair dQ (dpair dQmat (dlist dQ)) a with
+    | Some ((tol, (M, v)), _) => Some (ebool (rows_sum_to_one tol M) ++ ebool (stationary_within tol M v)
+                                        ++ ebool (forallb (forallb (fun x => Qc_leb 0 x)) M))
+    | None => None end
+  else None.
+
 Definition run (req : list Z) : list Z :=
   match req with
   | [] => malformed
@@ -126,6 +160,9 @@ Definition run (req : list Z) : list Z :=
       | None =>
       match run_ergodic e a with
       | Some r => r
+      | None =>
+      match run_peq e a with
+      | Some r => r
       | None => malformed
-      end end end end end
+      end end end end end end
   end.
